@@ -297,8 +297,6 @@ Proof.
   - apply IHHr. apply (Hf k b) in H. eapply Hc; eauto; lia.
 Qed.
 
-Definition layers_below (n0 : N) (layers : list addr) : bool := forallb (fun l => l <? n0) layers.
-
 Lemma layers_below_ok n0 layers : layers_below n0 layers = true -> Forall (fun l => l < n0) layers.
 Proof.
   unfold layers_below. rewrite forallb_forall. intro H. apply Forall_forall. intros x Hx. apply N.ltb_lt; auto.
